@@ -11,7 +11,7 @@ from mc.lexers import lex_html
 
 ID = 'C02'
 
-FORMS = [w + m for w in ('$', '$$', '$$$') for m in ('', '@0', '@3', '@10', '@-', '@-3')]
+FORMS = [w + m for w in ('$', '$$', '$$$') for m in ('', '@0', '@3', '@10', '@-', '@-3', '@98', '@-999')]   # 98.., 999..: wider than the run
 PLAIN = ('$', '$$', '$$$')
 SITES = ('name', 'class', 'attr', 'qattr', 'id', 'text')
 TAGS = 'xyzw'
@@ -28,7 +28,7 @@ def describe(tier):
     return dict(
         rule='E2: all forests of <= %d repeatable units (element | group, arbitrarily nested%s) x repeat count per unit in '
              '{none} + %s (product of counts <= %d) x [one site of (%s) carrying one of the %d numbering forms ($,$$,$$$ x '
-             '-,@0,@3,@10,@-,@-3) while the other sites carry plain $] plus maxRepeat in %s with forward forms. '
+             '-,@0,@3,@10,@-,@-3,@98,@-999) while the other sites carry plain $] plus maxRepeat in %s with forward forms. '
              'State = template x form x site x limit; transition = one production / option toggle.' % (
                  b['units'], '; 3 units with counts %s' % b['counts3'] if b['units3'] else '', b['counts'], b['max_product'],
                  ', '.join(SITES), len(FORMS), b['limits']),
